@@ -55,7 +55,10 @@ class RateExpr(Expr):
         class _RateExpr(cls):
             def __call__(self, variables, backend=math, **kwargs):
                 return cb(
-                    variables, self.all_args(variables), backend=backend, **kwargs
+                    variables,
+                    self.all_args(variables, backend=backend),
+                    backend=backend,
+                    **kwargs
                 )
 
         for k, v in (cls_attrs or {}).items():
